@@ -27,6 +27,9 @@ type InputOpts struct {
 	MaxShapes int  // default 4
 	Rich      bool // more containers holding records (arrays/maps/unions/errors of records), type values, named types
 	CleanKey  bool // make field "k" a never-null, never-missing int64 and "s" a never-null string in every shape
+	// NonRecords: about one value in seven is not a record (a string, an array
+	// or set of records, a union, an error, ... at the top level).
+	NonRecords bool
 }
 
 type inputGen struct {
@@ -254,7 +257,15 @@ func DrawInput(t *rapid.T, o InputOpts) gen.Seq {
 			s.Vals = append(s.Vals, s.Vals[Uniform(t, len(s.Vals), "dupof")])
 			continue
 		}
-		if 0+Uniform(t, 3, "switch?") == 0 {
+		if o.NonRecords && Chance(t, 14, "nonrecord?") {
+			typ := g.fieldType(t, 2)
+			if typ != zed.TypeNull {
+				v := vgKey.Value(t, typ)
+				s.Vals = append(s.Vals, oracle.MapLeaves(v, smallLeaf))
+				continue
+			}
+		}
+		if Uniform(t, 3, "switch?") == 0 {
 			cur = Uniform(t, nshapes, "which")
 		}
 		typ := shapes[cur]
